@@ -90,6 +90,9 @@ def cases(tier, seed):
     for vendor in (False, True):
         for first in GAIN_MENU:
             yield dict(kind='gainfile', vendor=vendor, first=first, tier=tier)
+    # ... and with the gain keywords recorded in the supplemental TEXT segment (FCS 3.x) instead of the primary one
+    for first in GAIN_MENU:
+        yield dict(kind='gainfile', vendor=False, first=first, tier=tier, where='stext')
     yield dict(kind='refuse', tier=tier)
 
 
@@ -341,12 +344,16 @@ def run_case(c):
                     extra += [('CREATOR', 'FlowJoCollectorsEdition 7.5')] + [('CytekP%02dG' % (j + 1), repr(g)) for j, g in cy.items()]
                 lay = dict(datatype='I', bits=[16] * 5, ranges=[1024] * 5, pne=['0,0', '0,0', '4,1', '0,0', '0,0'], byteord='4,3,2,1',
                            events=[[(37 * i + 11 * j) % 1024 for j in range(5)] for i in range(12)] + [[0] * 5, [1023] * 5], extra=extra)
+                if c.get('where') == 'stext':
+                    lay.update(version='FCS3.1', extra=[('NOTE', 'gains in the supplemental segment')], stext=list(extra) or [('NOTE2', 'none')],
+                               stext_pos=('after', 'before')[len(extra) % 2])
                 pg = os.path.join(scratch(), 'c03_gain.fcs')
                 buf, _ = fcsgen.build(lay)
                 with open(pg, 'wb') as f:
                     f.write(buf)
                 one = dict(c, only=list(spec))
-                what0 = 'sample with $PnG of the linear channels 1,2,4,5 = %r%s' % (spec, ' and CytekPnnG for channels 1,2,3,5' if c['vendor'] else '')
+                what0 = 'sample with $PnG of the linear channels 1,2,4,5 = %r%s%s' % (spec, ' and CytekPnnG for channels 1,2,3,5' if c['vendor'] else '',
+                                                                                              ' (recorded in the supplemental TEXT segment)' if c.get('where') == 'stext' else '')
                 try:
                     dg = FlowCal.io.FCSData(pg)
                     gl = list(dg.amplifier_gain())
